@@ -1009,4 +1009,23 @@ def views_batch_wrong(f):
     return (len(bad) == len(outs)), bad[:1]
 
 
+def member_transcript_skipped(f):
+    """C08 / C04: on the real crates, after an accepted batch the caller's transcript of some member is not in the state the documented protocol
+    leaves it in (independent reconstruction, refimpl::final_probe): that member's challenges were not derived from its own transcript"""
+    cfg = f.detail.get('replay_cfg', f.cfg)
+    bad = []
+    for seed in (1, 2):
+        o = run_replay(cfg, seed)
+        if 'crash' in o:
+            return None, o
+        for v in o.get('verify') or []:
+            if v['result'] != 'ok' or not v.get('reference_probe'):
+                continue
+            diff = [i for i, (a, b) in enumerate(zip(v['logs_after'], v['reference_probe'])) if b is not None and a != b]
+            if diff:
+                bad.append({'seed': seed, 'action': v['action'], 'members whose transcript is not in the documented state': diff})
+                break
+    return (len(bad) == 2), bad[:1]
+
+
 PREDS = {k: v for k, v in globals().items() if callable(v) and not k.startswith('_') and k != 'run_replay'}
